@@ -24,11 +24,13 @@ typedef struct rd {
 	int       synced;       /* expect is meaningful */
 	uint64_t  expect;       /* next stream offset this reader must see */
 	int       drop_told;    /* a non-zero dropped amount (or a resynchronisation) was reported since the last successful read */
+	uint64_t  resync_head;  /* stream offset of the writer's head when that report was made: nothing written later may be skipped */
 	uint64_t  reads, bytes;
 } rd;
 
 static r_buf_p  RBUF;
 static uint64_t g_shadow[RB_MAXSZ];
+static uint8_t  g_isstart[RB_MAXSZ];   /* this ring byte is the first data byte of a committed block */
 static uint64_t S_off;          /* stream offset of the next byte to be committed */
 static uint64_t g_round_start;  /* stream offset of the first byte written after the last wrap */
 static int      g_committed;
@@ -91,8 +93,8 @@ static void w_commit(void) {
 		if (len < g_minb) { off = 0; len = (avail < want) ? avail : want; }
 	}
 	/* leading gap: garbage that no reader may ever be handed */
-	for (size_t i = 0; i < off; i++) { buf[i] = 0xEE; g_shadow[(size_t)(buf - RBUF->buf) + i] = GAP; }
-	for (size_t i = 0; i < len; i++) { buf[off + i] = pat(S_off + i); g_shadow[(size_t)(buf - RBUF->buf) + off + i] = S_off + i; }
+	for (size_t i = 0; i < off; i++) { buf[i] = 0xEE; g_shadow[(size_t)(buf - RBUF->buf) + i] = GAP; g_isstart[(size_t)(buf - RBUF->buf) + i] = 0; }
+	for (size_t i = 0; i < len; i++) { buf[off + i] = pat(S_off + i); g_shadow[(size_t)(buf - RBUF->buf) + off + i] = S_off + i; g_isstart[(size_t)(buf - RBUF->buf) + off + i] = (i == 0); }
 	if (g_set2) rc = r_buf_wbuf_set2(RBUF, buf + off, len, NULL);
 	else rc = r_buf_wbuf_set(RBUF, off, off + len);
 	if (0 != rc) { sim_violation("rb-writer", "committing a block of %zu bytes (leading offset %zu, %zu available) failed with %d", len, off, avail, rc); return; }
@@ -139,7 +141,7 @@ static void reader_fail_or_known(rd *r, int id, size_t rpos_round_before, uint64
 static void reader_step(const item_t *it) {
 	int id = (int)item_get(it, "id", 0) % RB_READERS;
 	rd *r = &RD[id];
-	size_t drop = 0, drop2 = 0, got = 0, avail, nio, total = 0, lim;
+	size_t drop = 0, drop2 = 0, got = 0, avail, nio, total = 0, lim, iovn;
 	size_t round_before;
 	if (!r->inited || item_get(it, "reinit", 0)) {
 		size_t back = (size_t)item_get(it, "back", 0);
@@ -153,7 +155,7 @@ static void reader_step(const item_t *it) {
 	g_kf_pre = kf_precondition(&r->rpos);
 	if (g_kf_pre) sim_probe("c19.kf1_precondition");
 	avail = r_buf_data_avail_size(RBUF, &r->rpos, &drop);
-	if (drop) { r->drop_told = 1; sim_probe("c19.drop_reported"); }
+	if (drop) { r->drop_told = 1; r->resync_head = S_off; sim_probe("c19.drop_reported"); }
 	{
 		size_t lag_rounds = RBUF->round_num - round_before;
 		if (lag_rounds == 1) sim_probe("c19.reader_one_round_behind");
@@ -167,8 +169,13 @@ static void reader_step(const item_t *it) {
 	lim = item_get(it, "lim", 0) ? (size_t)item_get(it, "lim", 0) : ((size_t)1 << 40);
 	round_before = r->rpos.round_num;
 	g_kf_pre = g_kf_pre || kf_precondition(&r->rpos);
-	nio = r_buf_data_get(RBUF, &r->rpos, lim, g_iov, item_get(it, "iovn", 0) ? (size_t)item_get(it, "iovn", 0) : IOVN, &drop2, &got);
-	if (drop2) { r->drop_told = 1; sim_probe("c19.drop_reported"); }
+	iovn = item_get(it, "iovn", 0) ? (size_t)item_get(it, "iovn", 0) : IOVN - 8;
+	for (size_t i = iovn; i < iovn + 8 && i < IOVN; i++) { g_iov[i].iov_base = (uint8_t *)(uintptr_t)0xC0FFEE; g_iov[i].iov_len = 0xC0FFEE; }
+	nio = r_buf_data_get(RBUF, &r->rpos, lim, g_iov, iovn, &drop2, &got);
+	for (size_t i = iovn; i < iovn + 8 && i < IOVN; i++)
+		if (g_iov[i].iov_base != (uint8_t *)(uintptr_t)0xC0FFEE || g_iov[i].iov_len != 0xC0FFEE) { sim_violation("rb-reader", "reader %d: r_buf_data_get wrote behind the caller's array of %zu regions", id, iovn); return; }
+	if (nio > iovn) { sim_violation("rb-reader", "reader %d: r_buf_data_get returned %zu regions for an array of %zu", id, nio, iovn); return; }
+	if (drop2) { r->drop_told = 1; r->resync_head = S_off; sim_probe("c19.drop_reported"); }
 	sim_log("reader %d: avail=%zu drop=%zu | get lim=%zu -> nio=%zu got=%zu drop2=%zu rpos(idx=%zu off=%zu round=%zu)", id, avail, drop, lim, nio, got, drop2, r->rpos.iov_index, r->rpos.iov_off, r->rpos.round_num);
 	if (nio > IOVN) { sim_violation("rb-reader", "r_buf_data_get returned %zu regions for an array of %d", nio, IOVN); return; }
 	for (size_t i = 0; i < nio; i++) {
@@ -179,6 +186,10 @@ static void reader_step(const item_t *it) {
 	if (lim == ((size_t)1 << 40) && !item_get(it, "iovn", 0) && !drop && !drop2 && nio > 0 && avail != total) {
 		reader_fail_or_known(r, id, round_before, GAP, "rb-avail", "reader %d: available-size query said %zu but a full read returned %zu bytes", id, avail, total);
 		if (sim_violated()) return;
+	}
+	if (lim == ((size_t)1 << 40) && !drop && !drop2 && (nio == 0 || total == 0) && avail > 0 && !(g_variable && g_kf_pre)) {
+		sim_violation("rb-avail", "reader %d: available-size query said %zu but a full read returned nothing", id, avail);
+		return;
 	}
 	if (nio == 0 || total == 0) return;
 	/* the bytes: contiguous in the stream, unmodified, in sequence for this reader */
@@ -211,7 +222,22 @@ static void reader_step(const item_t *it) {
 				if (sim_violated()) return;
 				goto resync;
 			}
-			if (first > r->expect) sim_probe("c19.resync_after_drop");
+			if (first > r->expect) {
+				sim_probe("c19.resync_after_drop");
+				/* the report covered what was lost up to then; what the writer committed AFTER it is not lost */
+				if (first > r->resync_head && !(g_variable && g_kf_pre)) {
+					reader_fail_or_known(r, id, round_before, first, "rb-skip-after-resync", "reader %d: a loss was reported when the writer stood at stream offset %llu; the next read starts at %llu: %llu byte(s) committed after the report were skipped without another report", id,
+					    (unsigned long long)r->resync_head, (unsigned long long)first, (unsigned long long)(first - r->resync_head));
+					if (sim_violated()) return;
+					goto resync;
+				}
+				/* a reader that was told about a loss is put at the start of a block: the ring carries packets, and a
+				 * packet without its head is not "the written blocks" */
+				if (!(g_variable && g_kf_pre) && !g_isstart[(size_t)(g_iov[0].iov_base - RBUF->buf)]) {
+					sim_violation("rb-resync-mid-block", "reader %d: after a reported loss the stream continues at offset %llu, which is inside a written block, not at the start of one", id, (unsigned long long)first);
+					return;
+				}
+			}
 		}
 		r->synced = 1; r->expect = first; r->drop_told = 0;
 		if (g_variable && g_kf_pre) r->synced = 0; /* what this read returned may be bytes of the writer's current round (KF-C19-1): they will legitimately come again */
@@ -280,7 +306,7 @@ static void c19_gen(plan_t *p, rng_t *r, int tier) {
 			item_set(&op->it, "id", (long long)rng_below(r, (uint64_t)readers));
 			if (rng_chance(r, 60)) { item_set(&op->it, "reinit", 1); item_set(&op->it, "back", (long long)rng_below(r, (uint64_t)size * 2)); continue; }
 			if (rng_chance(r, 250)) item_set(&op->it, "lim", 1 + (long long)rng_below(r, (uint64_t)size + 8));
-			if (rng_chance(r, 100)) item_set(&op->it, "iovn", 1 + (long long)rng_below(r, 4));
+			if (rng_chance(r, 180)) item_set(&op->it, "iovn", 1 + (long long)rng_below(r, 4));
 			item_set(&op->it, "adv", rng_chance(r, 550) ? 0 : 1 + (long long)rng_below(r, 3));
 			item_set(&op->it, "advn", (long long)rng_below(r, 1u << 20));
 			item_set(&op->it, "back", rng_chance(r, 500) ? 0 : (long long)rng_below(r, (uint64_t)size));
@@ -295,6 +321,7 @@ static void c19_pre(const plan_t *p) {
 	memset(&g_pend, 0, sizeof(g_pend));
 	memset(RD, 0, sizeof(RD));
 	for (int i = 0; i < RB_MAXSZ; i++) g_shadow[i] = GAP;
+	memset(g_isstart, 0, sizeof(g_isstart));
 }
 
 static void *c19_root(void *arg) {
